@@ -166,6 +166,16 @@ impl<'a> SendTransactionsProofProcess<'a> {
 
             // verify filtered blocks (transactions)
             for filtered_block in &filtered_blocks {
+                // The transactions are stored as they are, so they have to be strictly well-formed
+                // (the message is only checked in the compatible mode).
+                if let Some(err) = filtered_block
+                    .transactions()
+                    .into_iter()
+                    .find_map(|tx| packed::TransactionReader::verify(tx.as_slice(), false).err())
+                {
+                    let errmsg = format!("failed to verify the transaction: {}", err);
+                    return StatusCode::MalformedProtocolMessage.with_context(errmsg);
+                }
                 let witnesses_root = filtered_block.witnesses_root();
                 let proof = filtered_block.proof();
                 let indices: Vec<u32> = proof.indices().into_iter().map(|v| v.unpack()).collect();
